@@ -44,6 +44,7 @@ def _known_names():
 
 
 _KNOWN = None
+_FETCHED = []
 
 
 # --------------------------------------------------------------------------
@@ -166,6 +167,7 @@ class Program(object):
         node = m.defs[qual]
         if isinstance(node, (ast.FunctionDef, ast.AsyncFunctionDef)):
             self._nest_new_helpers(node, m)
+            _FETCHED.append(node)
         return node
 
     # -- helpers introduced since the reference tree ---------------------------
@@ -418,6 +420,44 @@ class Report(object):
             rules = [rules]
         self.undecided_rules.append((list(rules), reason))
 
+    def _withhold(self, rules, fn, n0, f0):
+        """Violations a rule reports about a function that has been split
+        into helper functions the reference tree did not have are withheld
+        (the rule becomes undecided) unless the rule is written to follow
+        such helpers (``fn.helper_aware``): its reading of a restructured
+        function is not reliable enough to raise an alarm."""
+        if getattr(fn, "helper_aware", False) or len(self.findings) == n0:
+            return
+        split = {}
+        for f in _FETCHED[f0:]:
+            names = sorted(h.name for h in ast.walk(f)
+                           if getattr(h, "_virtual", False))
+            if names and getattr(f, "_module", None) is not None:
+                split["%s:%s" % (f._module.name, f._qualname)] = names
+        if not split:
+            return
+        keep, held = self.findings[:n0], []
+        for fd in self.findings[n0:]:
+            (held if fd.instance in split else keep).append(fd)
+        if not held:
+            return
+        self.findings = keep
+        for fd in held:
+            for ob in self.obligations:
+                if ob.get("ok") is False and ob["rule"] == fd.rule and \
+                        ob["instance"] == fd.instance and \
+                        ob["fact"] == fd.message:
+                    ob["ok"] = None
+        if isinstance(rules, str):
+            rules = [rules]
+        inst = sorted(set(fd.instance for fd in held))
+        self.undecided(sorted(set(fd.rule for fd in held)),
+                       "%d report(s) about %s withheld: the function now "
+                       "delegates to helper function(s) %s that the "
+                       "reference tree did not have and this rule does not "
+                       "follow" % (len(held), ", ".join(inst), ", ".join(
+                           n for i in inst for n in split[i])))
+
     def guard(self, rules, fn, *args, **kw):
         """Run one rule function; an AnalysisError that is not a vanished
         anchor (or an exception inside the rule on a shape it does not
@@ -425,8 +465,12 @@ class Report(object):
         check."""
         if os.environ.get("RIGVERIF_STRICT"):
             return fn(*args, **kw)
+        n0, f0 = len(self.findings), len(_FETCHED)
         try:
-            return fn(*args, **kw)
+            try:
+                return fn(*args, **kw)
+            finally:
+                self._withhold(rules, fn, n0, f0)
         except AnchorError as e:
             if not e.internal:
                 raise
